@@ -1,8 +1,11 @@
 use crate::runner::{CheckDef, Tier};
 
+pub mod c01;
 pub mod c02;
 pub mod c03;
+pub mod c04;
 pub mod c05;
+pub mod c06;
 pub mod c07;
 pub mod c08;
 pub mod c09;
@@ -21,9 +24,12 @@ pub const ALL: [&str; 19] = [
 
 pub fn get(id: &str, tier: Tier) -> Option<CheckDef> {
     Some(match id {
+        "C01" => c01::def(tier),
         "C02" => c02::def(tier),
         "C03" => c03::def(tier),
+        "C04" => c04::def(tier),
         "C05" => c05::def(tier),
+        "C06" => c06::def(tier),
         "C07" => c07::def(tier),
         "C08" => c08::def(tier),
         "C09" => c09::def(tier),
